@@ -161,9 +161,15 @@ func c18Expr(c *core.Ctx) {
 					return
 				}
 			}
+			// fractional results, some of them very close to a whole number, into a float64 field
+			for _, e := range []string{"1.5+${n1}", "${n1}/4", "2+0.0000000004", "${n2}*0.0000000001", "0.1+0.2", "1-0.9999999999", "${n1}*1.0000000001", "${n1}/1000000000", "3-0.0000000001*${n2}", "${n1}+${n2}", "7/2", "0.5*4"} {
+				if !yield(c18ExprCase{Expr: e, Typ: "float", Cfg: -1, Via: via}) {
+					return
+				}
+			}
 		}
 	}
-	types := map[string]reflect.Type{"int": reflect.TypeOf(0), "bool": reflect.TypeOf(false), "string": reflect.TypeOf("")}
+	types := map[string]reflect.Type{"int": reflect.TypeOf(0), "bool": reflect.TypeOf(false), "string": reflect.TypeOf(""), "float": reflect.TypeOf(0.0)}
 	Cases(c, gen, func(c *core.Ctx, cs0 c18ExprCase) {
 		cfgs := []int{cs0.Cfg}
 		if cs0.Cfg < 0 || cs0.InSeq {
@@ -228,8 +234,12 @@ func c18ExprOne(c *core.Ctx, cs c18ExprCase, types map[string]reflect.Type) {
 			ok := false
 			switch w := want.(type) {
 			case int:
-				ok = got == any(w)
+				ok = got == any(w) || (cs.Typ == "float" && got == any(float64(w)))
 			case float64:
+				if cs.Typ == "float" {
+					ok = got == any(w)
+					break
+				}
 				ok = got == any(int(w)) && float64(int(w)) == w
 			case bool:
 				ok = got == any(w)
